@@ -57,6 +57,8 @@ type litPt struct {
 	Mx    litOp     `json:"mx"`
 	T     string    `json:"t"`
 	O     litOp     `json:"o"`
+	Use   string    `json:"use"`
+	L     int       `json:"l"`
 }
 
 type litPoint struct {
@@ -71,6 +73,17 @@ const litPrelude = "package q\ntype MyInt int\ntype S struct { a int; b string }
 func (p litPoint) text() string {
 	e := p.Pt
 	switch e.Kind {
+	case "openarr":
+		q := p
+		q.Pt.Kind, q.Pt.Alen = "list", -2
+		lit := q.text()
+		switch e.Use {
+		case "elem":
+			return fmt.Sprintf("[][%d]%s{%s}", e.L, e.Ety, lit)
+		case "index":
+			return fmt.Sprintf("%s[%d]", lit, e.L-1)
+		}
+		return lit
 	case "list", "map":
 		var parts []string
 		for _, el := range e.Elems {
@@ -85,6 +98,8 @@ func (p litPoint) text() string {
 			ty = "[]" + e.Ety
 			if e.Alen >= 0 {
 				ty = fmt.Sprintf("[%d]%s", e.Alen, e.Ety)
+			} else if e.Alen == -2 {
+				ty = "[...]" + e.Ety
 			}
 		}
 		return ty + "{" + strings.Join(parts, ", ") + "}"
@@ -120,21 +135,8 @@ func (p litPoint) text() string {
 	return "?"
 }
 
-// mixed keyed / unkeyed element lists cannot be expressed through the builder's literal API (keyVal is all or nothing)
-func (p litPoint) buildable() bool {
-	if p.Pt.Kind != "list" {
-		return true
-	}
-	keyed, plain := 0, 0
-	for _, el := range p.Pt.Elems {
-		if el.Key.K == "nokey" {
-			plain++
-		} else {
-			keyed++
-		}
-	}
-	return keyed == 0 || plain == 0
-}
+// mixed keyed / unkeyed element lists are built in keyVal mode with None() as the key of an unkeyed element
+func (p litPoint) buildable() bool { return true }
 
 func (p litPoint) class() string {
 	e := p.Pt
@@ -148,6 +150,8 @@ func (p litPoint) class() string {
 		return o.K
 	}
 	switch e.Kind {
+	case "openarr":
+		return "open-array-literal/" + e.Use
 	case "list":
 		k := "slice-literal"
 		if e.Alen >= 0 {
@@ -414,11 +418,21 @@ func (w *litWorld) build(p litPoint) (g litG) {
 		}
 	}
 	switch e.Kind {
-	case "list":
-		keyed := len(e.Elems) > 0 && e.Elems[0].Key.K != "nokey"
+	case "list", "openarr":
+		if e.Kind == "openarr" {
+			e.Alen = -2
+		}
+		keyed := false
+		for _, el := range e.Elems {
+			keyed = keyed || el.Key.K != "nokey"
+		}
 		for _, el := range e.Elems {
 			if keyed {
-				w.push(cb, el.Key)
+				if el.Key.K == "nokey" {
+					cb.None()
+				} else {
+					w.push(cb, el.Key)
+				}
 			}
 			w.push(cb, el.Val)
 		}
@@ -426,7 +440,15 @@ func (w *litWorld) build(p litPoint) (g litG) {
 		if keyed {
 			n *= 2
 		}
-		if e.Alen >= 0 {
+		if e.Alen == -2 {
+			cb.ArrayLit(types.NewArray(w.typ(e.Ety), -1), n, keyed)
+			switch e.Use {
+			case "elem":
+				cb.SliceLit(types.NewSlice(types.NewArray(w.typ(e.Ety), int64(e.L))), 1)
+			case "index":
+				cb.Val(e.L - 1).Index(1, 0)
+			}
+		} else if e.Alen >= 0 {
 			cb.ArrayLit(types.NewArray(w.typ(e.Ety), int64(e.Alen)), n, keyed)
 		} else {
 			cb.SliceLit(types.NewSlice(w.typ(e.Ety)), n, keyed)
@@ -492,7 +514,7 @@ func (w *litWorld) build(p litPoint) (g litG) {
 func litRun(run *ev.Run, tier, prop string) (int64, int64, int64) {
 	var pts []litPoint
 	maxElems := 2
-	res, err := tlc.Run(tlc.Opts{SpecDir: SpecDir, Module: "Lits", Cfg: fmt.Sprintf("INIT Init\nNEXT Next\nCONSTANTS MaxElems = %d\nINVARIANTS TypeIsLiteralType PrefixClosed Emit\nCHECK_DEADLOCK FALSE\n", maxElems),
+	res, err := tlc.Run(tlc.Opts{SpecDir: SpecDir, Module: "Lits", Cfg: fmt.Sprintf("INIT Init\nNEXT Next\nCONSTANTS MaxElems = %d\nINVARIANTS TypeIsLiteralType PrefixClosed OpenLength Emit\nCHECK_DEADLOCK FALSE\n", maxElems),
 		Workers: 4, Heavy: true, Timeout: 20 * time.Minute,
 		OnJSON: func(l string) {
 			var p litPoint
